@@ -27,6 +27,7 @@ def run(ctx):
     check_scan_and_listeners(ctx, prog)
     check_join(ctx, prog, 'C14')
     check_close(ctx, prog)
+    check_sigpipe(ctx, prog)
     fixture = os.path.join(ir.VERIF, 'fixtures', 'selfdelete_bad.cpp')
     fprog = ir.load_units([fixture])
     fctx = type(ctx)(ctx.prop, ctx.tier, ctx.seed)
@@ -436,3 +437,40 @@ def check_close(ctx, prog):
         ctx.analysed(d[0])
         ctx.check(any(e.get('k') == 'call' and e.get('pq') == 'asl::Socket_::close' for e in fn_exprs(d[0])), 'C14.close', d[0]['pq'], '~Socket_:closes through close()', fwhere(d[0]), 'destructor calls close()',
                   '~Socket_ does not release the descriptor through close()')
+
+
+# ------------------------------------------------------------------ C14.sigpipe
+
+def check_sigpipe(ctx, prog):
+    """C14.sigpipe: a client that closes early must not be able to terminate the serving process.  Every system call in
+    Socket.cpp that transmits on the stream handle (`send` / `write` whose first argument is the `_handle` member) must be a
+    `send` whose flags contain MSG_NOSIGNAL (a plain write(2) / send without the flag raises SIGPIPE on a closed peer, which
+    by default kills the process with every in-flight serve() and the pending stop(true)), unless SIGPIPE is ignored by a
+    call of signal / sigaction with SIGPIPE in the same unit."""
+    sites = []
+    ignores = False
+    MSG_NOSIGNAL = 0x4000
+    for f in prog.functions:
+        if not f.get('body') or not (f.get('file') or '').endswith('Socket.cpp'):
+            continue
+        for e in fn_exprs(f):
+            if e.get('k') != 'call' or e.get('clsp') or e.get('obj') is not None:
+                continue
+            if e.get('fn') in ('signal', 'sigaction') and e.get('a') and const_val(e['a'][0]) == 13:
+                ignores = True
+            if e.get('fn') in ('send', 'write') and e.get('a'):
+                h = strip(e['a'][0])
+                while h.get('k') == 'cast':
+                    h = strip(h['e'])
+                if h.get('k') == 'mem' and h.get('f') == '_handle':
+                    sites.append((f, e))
+    n = 0
+    for f, e in sites:
+        n += 1
+        ctx.analysed(f)
+        role = '%s:transmits with MSG_NOSIGNAL' % f['n']
+        flags = const_val(e['a'][3]) if e.get('fn') == 'send' and len(e['a']) > 3 else None
+        ok = ignores or (e.get('fn') == 'send' and flags is not None and flags & MSG_NOSIGNAL)
+        ctx.check(ok, 'C14.sigpipe', f['pq'], role, fwhere(f, e.get('l')), '`%s`' % pe(e)[:80],
+                  '%s transmits on the socket with `%s` (no MSG_NOSIGNAL, SIGPIPE not ignored): when the client has closed early the second write raises SIGPIPE and terminates the whole server process - in-flight serve() calls never return and stop(true) never completes' % (f['q'], pe(e)[:80]))
+    ctx.floor('C14.sigpipe', n, 1)
